@@ -172,7 +172,7 @@ def stage_mc(run, st):
     log('[mc %s] %d distinct / %d generated states' % (st['name'], d, g))
 
 
-def extract_cases(out, path, limit=None):
+def extract_cases(out, path, limit=None, sample=None, seed=0):
     seen = set()
     pool = None
     n = 0
@@ -190,6 +190,10 @@ def extract_cases(out, path, limit=None):
                 seen.add(h)
                 if limit and n >= limit:
                     continue
+                if sample is not None and sample < 1.0:
+                    hv = int.from_bytes(hashlib.md5(('%d|' % seed).encode() + h).digest()[:4], 'big') / 2**32
+                    if hv >= sample:
+                        continue
                 f.write(body + '\n')
                 n += 1
     return pool, n
@@ -210,7 +214,7 @@ def stage_gen(run, st):
     if st.get('simulate') and 'Error:' in out and 'Simulation' not in out:
         raise Infra('simulation %s failed:\n%s' % (st['name'], out[-3000:]))
     cases = os.path.join(wd, 'cases.ndjson')
-    pool, n = extract_cases(out, cases, st.get('limit'))
+    pool, n = extract_cases(out, cases, st.get('limit'), st.get('sample'), run.seed)
     d, g = tlc_counts(out)
     run.states += d
     run.transitions += g
@@ -227,7 +231,7 @@ def stage_gogen(run, st):
     wd = run.sub('gogen-' + st['name'])
     binp = build_harness(run)
     cases = os.path.join(wd, 'cases.ndjson')
-    cmd = [binp, 'gen', '-fam', st['fam'], '-seed', str(run.seed * 1000 + st.get('seedoff', 0)), '-n', str(st['n']), '-out', cases] + list(st.get('args', []))
+    cmd = [binp, 'gen', '-fam', st['fam'], '-mode', st.get('mode', 'mixed'), '-seed', str(run.seed * 1000 + st.get('seedoff', 0)), '-n', str(st['n']), '-out', cases] + list(st.get('args', []))
     p = subprocess.run(cmd, capture_output=True, text=True, timeout=600)
     if p.returncode != 0:
         raise Infra('driver failed: %s\n%s' % (' '.join(cmd), p.stderr[-2000:]))
@@ -249,8 +253,12 @@ def shard_cases(gen, wd, k):
             continue
         if '"id"' not in line[:200]:
             line = '{"id":"%s:%d",' % (gen['name'], i) + line.lstrip()[1:]
-        files[i % k].write(line)
-        counts[i % k] += 1
+        j = i % k
+        m = re.search(r'"skey":"((?:[^"\\]|\\.)*)"', line)
+        if m:
+            j = int.from_bytes(hashlib.md5(m.group(1).encode()).digest()[:4], 'big') % k
+        files[j].write(line)
+        counts[j] += 1
         i += 1
     for f in files:
         f.close()
@@ -497,9 +505,13 @@ def run_check(prop, tier, seed):
             for c in run.mismatches:
                 k = (c['m']['id'], str(c['m']['info'][0]))
                 cnt[k] += 1
-                exm.setdefault(k, c['m'])
+                exm.setdefault(k, c)
             for k, v in sorted(cnt.items()):
-                log('  CLASS %6d %s %s' % (v, k, json.dumps(exm[k])[:700]))
+                log('  CLASS %6d %s %s' % (v, k, json.dumps(exm[k]['m'])[:700]))
+                if os.environ.get('VERIF_DEBUG') == '2':
+                    pool, case = case_of_line(exm[k]['trace'], exm[k]['cases'], exm[k]['m']['line'])
+                    log('      CASE ' + json.dumps({'cfg': case.get('cfg'), 'ops': [[o.get('op'), o.get('pat'), o.get('methods'), o.get('chain')] for o in case['ops']]})[:1500])
+                    log('      EVENT ' + json.dumps(event_at(exm[k]['trace'], exm[k]['m']['line']))[:900])
         # ---- verdicts
         known = load_known()
         cands = {}
